@@ -323,6 +323,37 @@ def run(chk, repo):
     poly = repo.find(LP, "Poly")
 
     # --------------------------------------------------------------- funnel
+    # a Poly stays mutable (item assignment, the zero setter) until it has been hashed: anything computed from its
+    # terms and kept on the object has to be dropped - or the mutation refused - by every method that writes the terms
+    chk.rule("C07.memo", "a value kept on a Poly (``if not hasattr(self, '_x'): self._x = <computed from self>``) is "
+                         "guarded in every mutator (__setitem__, the zero setter): the mutator refuses to run once the value "
+                         "exists (the _hash freeze) or deletes it")
+    pcls = [n for n in ast.walk(mod.tree) if isinstance(n, ast.ClassDef) and n.name == "Poly"]
+    nmemo = 0
+    for cdef in pcls:
+        mutators = [m_ for m_ in cdef.body if isinstance(m_, FuncTypes) and m_.name != "__init__" and any(
+            (isinstance(x, (ast.Subscript,)) and isinstance(x.ctx, (ast.Store, ast.Del)) and unparse(x.value) == "self._data")
+            for x in ast.walk(m_))]
+        for meth in [m_ for m_ in cdef.body if isinstance(m_, FuncTypes)]:
+            for ifn in [n for n in ast.walk(meth) if isinstance(n, ast.If)]:
+                t_ = unparse(ifn.test)
+                for st_ in ifn.body:
+                    if isinstance(st_, ast.Assign) and len(st_.targets) == 1 and isinstance(st_.targets[0], ast.Attribute) \
+                            and unparse(st_.targets[0].value) == "self" and any(
+                                isinstance(x, ast.Name) and x.id == "self" for x in ast.walk(st_.value)):
+                        a_ = st_.targets[0].attr
+                        if t_ not in ("not hasattr(self, %r)" % a_, "self.%s is None" % a_, "getattr(self, %r, None) is None" % a_,
+                                      "%r not in self.__dict__" % a_):
+                            continue
+                        nmemo += 1
+                        unguarded = [m2.name for m2 in mutators if not any(
+                            (isinstance(x, ast.If) and a_ in unparse(x.test) and any(isinstance(y, ast.Raise) for y in ast.walk(x)))
+                            or (isinstance(x, ast.Delete) and ("self.%s" % a_) in unparse(x)) for x in ast.walk(m2))]
+                        chk.decide(not unguarded, "C07.memo", W("Poly.%s" % meth.name), "kept on the object: %s" % short(st_),
+                                   why="%s change(s) the terms without refusing or dropping self.%s: a later evaluation, "
+                                       "comparison or product reads the value computed for the old terms"
+                                       % (", ".join(unguarded), a_), node=st_)
+    chk.floor("C07.memo", nmemo, 1, "values kept on a Poly (the hash)")
     chk.rule("C07.funnel", "_data of any object is written (assigned, item-assigned, item-deleted, mutated by "
                            "pop/update/clear/setdefault) only inside Poly.__init__, Poly.__setitem__ and the zero "
                            "setter, and each of them removes coefficients equal to the zero value unless they are Streams")
